@@ -22,10 +22,10 @@ func issue(rule, format string, args ...any) *Issue {
 
 // Expect is what the harness knows about how the file was produced.
 type Expect struct {
-	Cols    []ref.Column   // model columns (nil: take them from the file)
-	Streams [][]ref.LV     // expected Dremel streams of the whole file (nil: skip the semantic comparison)
+	Cols    []ref.Column    // model columns (nil: take them from the file)
+	Streams [][]ref.LV      // expected Dremel streams of the whole file (nil: skip the semantic comparison)
 	Opts    *gen.WriterOpts // writer options (nil: unknown)
-	Codecs  []int          // expected codec per column (-1 unknown)
+	Codecs  []int           // expected codec per column (-1 unknown)
 	MaxRows int64
 }
 
